@@ -24,12 +24,14 @@ SECOND = [("dpause",), ("pause",), ("abort",), ("suspend", "none")]
 SPECS = {
     "quick": [spec("cpspace", D, bound=1, s=s) for s in (1, 2, 3, 4)] + [spec("cpspace", D, bound=1, s=7, tail=0)] + [spec(k, D, bound=1) for k in ("count2", "scan2", "tiny")]
     + [spec("cpspace", DS, bound=2, s=2, n=4, tail=1)]
-    + [spec("cpspace", D, bound=1, s=s, nr=1) for s in (2, 3)],  # the same with rewindable switched off for the whole body
+    + [spec("cpspace", D, bound=1, s=s, nr=1) for s in (2, 3)]  # the same with rewindable switched off for the whole body
+    + [spec("cpspace", D, bound=2, s=2, n=4, tail=1)],  # two deferred pauses at every pair of positions
     "thorough": [spec("cpspace", D, bound=1, s=s, n=8, tail=t) for s in (1, 2, 3, 4, 9) for t in (0, 2)]
     + [spec(k, D, bound=1, a=a) for k in ("count2", "scan2", "tiny", "grid22s", "nested") for a in (0, 1)]
     + [spec("cpspace", SECOND, bound=2, s=2, n=4, tail=1)]
     + [spec("cpspace", D, bound=1, s=s, n=8, tail=t, nr=1) for s in (1, 2, 3, 4) for t in (0, 2)]
-    + [spec(k, DS, bound=2, **kw) for k, kw in (("cpspace", {"s": 3, "n": 6, "tail": 2}), ("count2", {}), ("tiny", {"a": 1}))],
+    + [spec(k, DS, bound=2, **kw) for k, kw in (("cpspace", {"s": 3, "n": 6, "tail": 2}), ("count2", {}), ("tiny", {"a": 1}))]
+    + [spec(k, D, bound=2, **kw) for k, kw in (("cpspace", {"s": 3, "n": 6, "tail": 2}), ("cpspace", {"s": 1, "n": 4, "tail": 1}), ("count2", {}), ("tiny", {"a": 1}))],
 }
 
 
@@ -40,6 +42,8 @@ def oracle(scn, obs, ref, schedule):
     inj = schedule.get("injections", ())
     if len(inj) == 2 and inj[0][1][0] == "dpause" and inj[1][1][0] == "suspend" and not schedule.get("decisions") and not schedule.get("faults"):
         return _with_suspension(scn, obs)
+    if len(inj) >= 2 and all(i[1][0] == "dpause" for i in inj) and not schedule.get("decisions") and not schedule.get("faults"):
+        return _several(scn, obs, ref)
     if len(inj) != 1 or inj[0][1][0] != "dpause" or schedule.get("decisions") or schedule.get("faults"):
         return out  # the precise claims are made for a single deferred pause; mixed schedules are C07/C08's business
     tl = obs.timeline
@@ -145,6 +149,48 @@ def _with_suspension(scn, obs):
         # checkpoint... which has been consumed: accept only if the helper started right here
         if not (nxt is not None and obs.msgs[tl[nxt][1]].command == "_start_suspender"):
             out.append(("no-pause-at-checkpoint", f"deferred pause pending, then a suspension; at the next checkpoint (message #{after[cpn][1]}) the engine did not pause"))
+    return out
+
+
+def _several(scn, obs, ref):
+    """Two (or more) deferred pauses, every pause resumed: each pause sits right after a checkpoint at which the flag was
+    set, nothing is replayed, and a request made while one is already pending does not buy a second pause."""
+    out = []
+    tl = obs.timeline
+    dpr = obs.extra["dpr"]
+    probe_start = next((i for i, t in enumerate(tl) if t[0] == "call" and t[1] == "probe"), len(tl))
+    main_end = next((t[1] for t in tl[probe_start:] if t[0] == "msg"), len(obs.msgs))
+    ids = [id(m) for m in obs.msgs[:main_end]]
+    if len(set(ids)) != len(ids):
+        out.append(("replayed-after-deferred-pause", "a Msg object was executed twice although only deferred pauses were requested"))
+    spans = engine.call_spans(obs)
+    if all(c["exc"] is None or c["state_after"] == "paused" for c, _s, _r in spans) and spans and spans[-1][0]["state_after"] == "idle":
+        trace = engine.plan_trace(obs)[:main_end]
+        ref_main = engine.plan_trace(ref)[: _ref_main_len(ref)]
+        if trace != ref_main:
+            out.append(("trace-differs-after-resume", f"{len(trace)} messages vs {len(ref_main)} in the uninterrupted run (deferred pauses only, all resumed)"))
+    # every pause directly follows a checkpoint that saw the flag
+    last_msg = None
+    n_paused = 0
+    for i, t in enumerate(tl[:probe_start]):
+        if t[0] == "msg":
+            last_msg = t[1]
+        elif t[0] == "state" and t[1] == "paused":
+            n_paused += 1
+            if last_msg is None or obs.msgs[last_msg].command != "checkpoint":
+                out.append(("pause-not-at-checkpoint", f"paused after {obs.msgs[last_msg].command if last_msg is not None else 'no message'}"))
+            elif not dpr[last_msg]:
+                out.append(("pause-at-checkpoint-without-pending-request", f"checkpoint #{last_msg} saw deferred_pause_requested False but the engine paused"))
+    # a checkpoint that sees the flag must be followed by a pause before the next message
+    for i, t in enumerate(tl[:probe_start]):
+        if t[0] == "msg" and obs.msgs[t[1]].command == "checkpoint" and dpr[t[1]]:
+            nxt = next((j for j in range(i + 1, len(tl)) if tl[j][0] == "msg"), None)
+            i_paused = next((j for j in range(i, len(tl)) if tl[j][0] == "state" and tl[j][1] == "paused"), None)
+            if i_paused is None or (nxt is not None and nxt < i_paused):
+                out.append(("no-pause-at-checkpoint", f"deferred pause pending at checkpoint #{t[1]} but the engine did not pause there"))
+    accepted = sum(1 for h in obs.helpers if h[4] is None)
+    if n_paused > accepted:
+        out.append(("more-pauses-than-requests", f"{n_paused} pauses for {accepted} accepted deferred requests"))
     return out
 
 
